@@ -77,6 +77,8 @@ impl PidFileLocking {
                 self.get_locker_pid()
             )))
         } else {
+            #[cfg(fuellabs_sway_verif)]
+            verif::step("release:remove", &self.0);
             self.remove_file()?;
             Ok(())
         }
@@ -97,15 +99,23 @@ impl PidFileLocking {
     /// Returns the PID of the owner of the current lock. If the PID is not longer active the lock
     /// file will be removed
     pub fn get_locker_pid(&self) -> Option<usize> {
+        #[cfg(fuellabs_sway_verif)]
+        verif::step("pid:open", &self.0);
         let fs = File::open(&self.0);
         if let Ok(mut file) = fs {
             let mut contents = String::new();
+            #[cfg(fuellabs_sway_verif)]
+            verif::step("pid:read", &self.0);
             file.read_to_string(&mut contents).ok();
             drop(file);
             if let Ok(pid) = contents.trim().parse::<usize>() {
+                #[cfg(fuellabs_sway_verif)]
+                verif::step("pid:alive", &self.0);
                 return if Self::is_pid_active(pid) {
                     Some(pid)
                 } else {
+                    #[cfg(fuellabs_sway_verif)]
+                    verif::step("pid:remove", &self.0);
                     let _ = self.remove_file();
                     None
                 };
@@ -127,11 +137,19 @@ impl PidFileLocking {
         self.release()?;
         if let Some(dir) = self.0.parent() {
             // Ensure the directory exists
+            #[cfg(fuellabs_sway_verif)]
+            verif::step("lock:mkdir", &self.0);
             create_dir_all(dir)?;
         }
 
+        #[cfg(fuellabs_sway_verif)]
+        verif::step("lock:create", &self.0);
         let mut fs = File::create(&self.0)?;
+        #[cfg(fuellabs_sway_verif)]
+        verif::step("lock:write", &self.0);
         fs.write_all(std::process::id().to_string().as_bytes())?;
+        #[cfg(fuellabs_sway_verif)]
+        verif::step("lock:sync", &self.0);
         fs.sync_all()?;
         fs.flush()?;
         Ok(())
@@ -141,6 +159,8 @@ impl PidFileLocking {
     /// Returns a vector of paths that were cleaned up
     pub fn cleanup_stale_files() -> io::Result<Vec<PathBuf>> {
         let lock_dir = user_forc_directory().join(".lsp-locks");
+        #[cfg(fuellabs_sway_verif)]
+        verif::step("cleanup:readdir", &lock_dir);
         let entries = read_dir(&lock_dir)?;
         let mut cleaned_paths = Vec::new();
 
@@ -149,15 +169,25 @@ impl PidFileLocking {
             let path = entry.path();
             if let Some(ext) = path.extension().and_then(|ext| ext.to_str()) {
                 if ext == "lock" {
+                    #[cfg(fuellabs_sway_verif)]
+                    verif::step("cleanup:open", &path);
                     if let Ok(mut file) = File::open(&path) {
                         let mut contents = String::new();
+                        #[cfg(fuellabs_sway_verif)]
+                        verif::step("cleanup:read", &path);
                         if file.read_to_string(&mut contents).is_ok() {
                             if let Ok(pid) = contents.trim().parse::<usize>() {
+                                #[cfg(fuellabs_sway_verif)]
+                                verif::step("cleanup:alive", &path);
                                 if !Self::is_pid_active(pid) {
+                                    #[cfg(fuellabs_sway_verif)]
+                                    verif::step("cleanup:remove", &path);
                                     remove_file(&path)?;
                                     cleaned_paths.push(path);
                                 }
                             } else {
+                                #[cfg(fuellabs_sway_verif)]
+                                verif::step("cleanup:remove-unparsable", &path);
                                 remove_file(&path)?;
                                 cleaned_paths.push(path);
                             }
@@ -177,6 +207,29 @@ impl PidFileLocking {
 /// Returns `true` if a corresponding "dirty" flag file exists, `false` otherwise.
 pub fn is_file_dirty<X: AsRef<Path>>(path: X) -> bool {
     PidFileLocking::lsp(path.as_ref()).is_locked()
+}
+
+/// Verification hook (only with `--cfg fuellabs_sway_verif`): `step(label, path)` is called right
+/// before each individual file-system operation of this module. It does nothing unless a harness
+/// has installed a callback with `set_step_hook`; the callback may block to interleave processes.
+#[cfg(fuellabs_sway_verif)]
+pub mod verif {
+    use std::{path::Path, sync::OnceLock};
+
+    type StepHook = Box<dyn Fn(&str, &Path) + Send + Sync>;
+    static STEP_HOOK: OnceLock<StepHook> = OnceLock::new();
+
+    /// Installs the process-wide callback. Returns `false` if one was already installed.
+    pub fn set_step_hook(hook: StepHook) -> bool {
+        STEP_HOOK.set(hook).is_ok()
+    }
+
+    #[inline]
+    pub fn step(label: &str, path: &Path) {
+        if let Some(hook) = STEP_HOOK.get() {
+            hook(label, path);
+        }
+    }
 }
 
 #[cfg(test)]
